@@ -7,7 +7,8 @@ RULE = ('random subsets of the six schedulable parameters, affine dyadic factor 
         'encode their argument, random call sequences mixing explicit and implicit steps on the real '
         'LambdaParamScheduler attached to a real preconditioner whose step count is advanced between calls; '
         'all values dyadic so float products are exact; constructor stream over every (scheduled, callable) '
-        'pair; exp_decay over k=0..K and dyadic caps; non-trivial = ≥1 scheduled parameter and ≥2 calls')
+        'pair; exp_decay over k=0..K and dyadic caps; non-trivial = ≥1 scheduled parameter and ≥2 calls'
+        '; real-valued parameters given as Python ints; public properties read before and after scheduler.step(); the decay schedule object asked again in a non-monotone order; histories cut where exact products leave the 53-bit significand')
 TRUSTED = [
     'Lean 4.33 kernel; axioms audited ⊆ {propext, Classical.choice, Quot.sound}',
     'hand-written model KV.Sched tied to kfac/scheduler.py and kfac/hyperparams.py by this correspondence',
